@@ -177,7 +177,22 @@ impl DailyLogsUpdate {
             ",
         )?;
 
-        let mut rows = daily_log_stmt.query([])?;
+        //the selection depends on the need_recompute flags that are updated below: read it entirely first
+        type LogRow = (Uid, String, i64, bool, Option<Vec<u8>>, Option<Vec<u8>>);
+        let mut log_rows: Vec<LogRow> = Vec::new();
+        {
+            let mut rows = daily_log_stmt.query([])?;
+            while let Some(row) = rows.next()? {
+                log_rows.push((
+                    row.get(0)?,
+                    row.get(1)?,
+                    row.get(2)?,
+                    row.get(3)?,
+                    row.get(4)?,
+                    row.get(5)?,
+                ));
+            }
+        }
 
         let mut previous_room: Uid = [0; 16];
         let mut previous_entity: String = "-".to_string();
@@ -199,15 +214,7 @@ impl DailyLogsUpdate {
             Some(hasher.finalize().as_bytes().to_vec())
         }
 
-        while let Some(row) = rows.next()? {
-            let room: Uid = row.get(0)?;
-            let entity: String = row.get(1)?;
-            let date: i64 = row.get(2)?;
-            let need_recompute: bool = row.get(3)?;
-
-            let daily_hash: Option<Vec<u8>> = row.get(4)?;
-            let history_hash: Option<Vec<u8>> = row.get(5)?;
-
+        for (room, entity, date, need_recompute, daily_hash, history_hash) in log_rows {
             if !(previous_room.eq(&room) && previous_entity.eq(&entity)) {
                 //every room and entity has its own history
                 has_previous = false;
